@@ -2,7 +2,13 @@
 //
 //	wiredrv -build v.ndjson -out r.ndjson [-k 3]    execute TLC build sequences / DHCP layout vectors
 //	wiredrv -send  v.ndjson -out r.ndjson [-k 2]    call every send function with concretised parameter classes
-//	wiredrv -frames f.hex [-mac 02:00:00:00:00:01] -out r.ndjson   check recorded frames (one hex frame per line)
+//	wiredrv -frames f.hex [-mac 02:00:00:00:00:01] [-flat] -out r.ndjson   check recorded frames
+//
+// A line of the frames file is either a hex frame (as written by `hostsdrv -frames`) or a JSON object
+// {"frame": "<hex>", "mac": "<host NIC MAC, optional>", "tag": "<free text, optional>",
+// "expect": {"<field of AbsFrame.Flatten>": "<text>", ...}} so that other families can state what a
+// recorded frame must be (kind, ethDst, ipSrc, f.spa, f.yiaddr, f.opt54 ...).  With -flat the abstract
+// frame of every line is written to the result file.
 //
 // Every result line carries `findings`: {level: prop|mech|note, key, what}.  prop = the real code
 // contradicts a property-level predicate of the specification; mech = it departs from the mechanism
@@ -161,7 +167,7 @@ func (s *sink) finish(extra jmap) {
 	fmt.Fprintln(realStdout, string(b))
 }
 
-func framesMode(path, mac, out string) {
+func framesMode(path, mac, out string, flatAll bool) {
 	hostMAC, err := net.ParseMAC(mac)
 	if err != nil {
 		fmt.Fprintln(os.Stderr, "bad -mac:", err)
@@ -183,17 +189,37 @@ func framesMode(path, mac, out string) {
 		if line == "" {
 			continue
 		}
+		lineMAC := hostMAC
+		var expect jmap
+		tag := ""
+		if strings.HasPrefix(line, "{") {
+			var m jmap
+			if err := json.Unmarshal([]byte(line), &m); err != nil {
+				fmt.Fprintln(os.Stderr, "bad json line", n+1, err)
+				os.Exit(2)
+			}
+			line, expect, tag = jstr(m, "frame"), jobj(m, "expect"), jstr(m, "tag")
+			if s := jstr(m, "mac"); s != "" {
+				if lineMAC, err = net.ParseMAC(s); err != nil {
+					fmt.Fprintln(os.Stderr, "bad mac on line", n+1)
+					os.Exit(2)
+				}
+			}
+		}
 		b, err := hex.DecodeString(line)
 		if err != nil {
 			fmt.Fprintln(os.Stderr, "bad hex line", n+1)
 			os.Exit(2)
 		}
 		n++
-		r := &result{ID: n, Part: "frames", Frame: line}
-		abs, err := vh.CheckWellFormed(b, hostMAC)
+		r := &result{ID: n, Part: "frames", Frame: line, Func: tag}
+		abs, err := vh.CheckWellFormed(b, lineMAC)
 		if abs != nil {
 			r.Flat = abs.Flatten()
 			kinds[abs.Kind]++
+			for _, note := range abs.Notes {
+				r.add("note", "wire."+note, "%s", note)
+			}
 		}
 		if err != nil {
 			re, _ := err.(*vh.RefError)
@@ -203,13 +229,35 @@ func framesMode(path, mac, out string) {
 			}
 			r.add("prop", "frame:"+key, "%v", err)
 		}
-		if len(r.Findings) == 0 {
+		for field := range expect {
+			want := jstr(expect, field)
+			got, has := r.Flat[field]
+			if want == "absent" && !has {
+				continue
+			}
+			if !has || got != want {
+				if !has {
+					got = "(absent)"
+				}
+				r.add("prop", "frame:expect:"+field, "%s = %s, expected %s", field, got, want)
+			}
+		}
+		if !flatAll && !hasLevel(r, "prop") {
 			r.Flat, r.Frame = nil, "" // keep the output small
 		}
 		sk.cases++
 		sk.put(r)
 	}
 	sk.finish(jmap{"kinds": kinds})
+}
+
+func hasLevel(r *result, level string) bool {
+	for _, f := range r.Findings {
+		if f.Level == level {
+			return true
+		}
+	}
+	return false
 }
 
 func main() {
@@ -219,13 +267,19 @@ func main() {
 	mac := flag.String("mac", "02:00:00:00:00:01", "host NIC MAC for -frames")
 	out := flag.String("out", "", "ndjson result file")
 	k := flag.Int("k", 2, "concrete instances per abstract case")
+	flatAll := flag.Bool("flat", false, "-frames: write the abstract frame of every line, not only of rejected ones")
 	tmp := flag.String("tmp", os.TempDir(), "directory for lease files")
+	selftest := flag.Bool("selftest", false, "check the reference decoder against frames of the independent builders")
 	flag.Parse()
 	seed, _ := strconv.ParseInt(os.Getenv("VERIF_SEED"), 10, 64)
 	vh.Quiet()
 	realStdout = os.Stdout
 	if null, err := os.OpenFile(os.DevNull, os.O_WRONLY, 0); err == nil {
 		os.Stdout = null
+	}
+	if *selftest {
+		selftestMode()
+		return
 	}
 	if *out == "" {
 		fmt.Fprintln(os.Stderr, "missing -out")
@@ -237,7 +291,7 @@ func main() {
 	case *send != "":
 		sendMode(readVectors(*send), *out, *k, seed, *tmp)
 	case *frames != "":
-		framesMode(*frames, *mac, *out)
+		framesMode(*frames, *mac, *out, *flatAll)
 	default:
 		fmt.Fprintln(os.Stderr, "one of -build, -send, -frames is required")
 		os.Exit(2)
